@@ -157,13 +157,18 @@ theorem C11_accessors_pgm [HasSqrt K] (p : PGMParams σ K X) (s : PGMState σ K 
     pgmFQuadApproxImpl p ri x y L = pgmFQuadApproxSpec p ri x y L ∧
     pgmNormResidual (pgmImplStep p s) = p.normX (s.x - (pgmSpecStep p s).x) ∧
     (p.pol.kind ≠ .robust → apgmNormResidual (apgmImplStep p a) = p.normX ((apgmSpecStep p a).x - a.v)) ∧
+    (p.pol.kind = .robust → apgmNormResidual (apgmImplStep p a) = p.normX ((apgmSpecStep p a).x - a.x)) ∧
     pgmMinimizer s = s.x ∧ apgmMinimizer a = a.x := by
-  refine ⟨rfl, rfl, rfl, ?_, ?_, rfl, rfl⟩
+  refine ⟨rfl, rfl, rfl, ?_, ?_, ?_, rfl, rfl⟩
   · rw [pgm_impl_eq_spec]; rfl
   · intro hk
     rw [apgm_impl_eq_spec]
     unfold apgmSpecStep apgmNormResidual
     cases hkk : p.pol.kind <;> simp_all
+  · intro hk
+    rw [apgm_impl_eq_spec]
+    unfold apgmSpecStep apgmNormResidual
+    simp [hk]
 
 /-- constructors / `z_init` / `u_init`: `x = x0` (zeros when `None`), `z_i = C_i x0`, `z_old = z`, `u_i = 0`
     (ADMM, LinearizedADMM); missing starts are zeros and the previous-iterate copies equal the current
@@ -181,6 +186,27 @@ theorem C11_init (pa : ADMMParams K X Z) (pl : LADMMParams K X Z) (x0 : X) (z0 :
     (pgmInit L0 inf x0 m : PGMState σ K X) = { x := x0, L := L0, fpr := inf, mem := m } ∧
     (apgmInit L0 inf x0 m : APGMState σ K X) = { x := x0, v := x0, t := 1, L := L0, fpr := inf, mem := m } :=
   ⟨rfl, rfl, rfl, rfl, rfl, rfl, rfl, rfl, rfl, rfl⟩
+
+/-- constructor argument checks.  `ADMM.__init__`: `len(C_list) ≠ len(g_list)` or `len(rho_list) ≠ len(g_list)` is a
+    `ValueError`; otherwise the state is `admmInit` and all lists have the common length `N = len(g_list)` — the
+    hypothesis of `C11_admm_impl_eq_spec` (`proxg` and `g` are the same list of functional objects, hence `hpg`).
+    `PGM/AcceleratedPGM.__init__`: `g.has_prox` false is a `ValueError`. -/
+theorem C11_init_checked (p : ADMMParams K X Z) (x0 : Option X) (hpg : p.proxg.length = p.g.length)
+    (L0 inf : K) (x1 : X) (m : σ) :
+    (p.C.length ≠ p.g.length → admmInitChecked p x0 = .error .value) ∧
+    (p.rho.length ≠ p.g.length → admmInitChecked p x0 = .error .value) ∧
+    (p.C.length = p.g.length → p.rho.length = p.g.length →
+      admmInitChecked p x0 = .ok (admmInit p x0) ∧ ADMMWf p.g.length p (admmInit p x0)) ∧
+    (admmInit p none).z = p.C.map (fun C => C 0) ∧
+    (pgmInitChecked false L0 inf x1 m : Except Err (PGMState σ K X)) = .error .value ∧
+    (pgmInitChecked true L0 inf x1 m : Except Err (PGMState σ K X)) = .ok (pgmInit L0 inf x1 m) ∧
+    (apgmInitChecked false L0 inf x1 m : Except Err (APGMState σ K X)) = .error .value ∧
+    (apgmInitChecked true L0 inf x1 m : Except Err (APGMState σ K X)) = .ok (apgmInit L0 inf x1 m) := by
+  refine ⟨fun h => ?_, fun h => ?_, fun h1 h2 => ⟨?_, admm_init_wf p x0 _ h2 hpg h1⟩, rfl, rfl, rfl, rfl, rfl⟩
+  · unfold admmInitChecked; simp [h]
+  · unfold admmInitChecked
+    by_cases hc : p.C.length = p.g.length <;> simp [hc, h]
+  · unfold admmInitChecked; simp [h1, h2]
 
 /-- the defect of the pinned tree, as a theorem about the pinned body: ignoring the supplied `x`
     is *not* the documented residual (witness over ℚ: `C = id`, `z = 0`, current `x = 0`,
@@ -210,6 +236,9 @@ def exP : ADMMParams ℚ ℚ ℚ :=
 def exS : ADMMState ℚ ℚ := { x := 1, z := [1, 2], zOld := [0, 0], u := [1 / 2, 0] }
 
 example : ADMMWf 2 exP exS := by simp [ADMMWf, exP, exS]
+-- the constructor check accepts the instance and rejects it when a penalty parameter is missing
+example : admmInitChecked exP (some 1) = .ok (admmInit exP (some 1)) := by simp [admmInitChecked, exP]
+example : admmInitChecked { exP with rho := [1] } (some 1) = .error .value := by simp [admmInitChecked, exP]
 -- the step really moves the state, and both transcriptions compute the same numbers
 example : (admmImplStep exP exS).x = 5 / 8 ∧ (admmImplStep exP exS).z = [15 / 16, 3 / 8] ∧
     (admmImplStep exP exS).u = [0, 1 / 2] ∧ (admmImplStep exP exS).zOld = [1, 2] := by
